@@ -114,6 +114,11 @@ def apply_op(t, op, gm, ref_builder):
             obs["rotq"] = read_quat(t)
         elif name == "ReadSe3":
             obs["posm"], obs["rotm"] = read_se3(t, gm)
+        elif name == "ReadDerived":
+            d = np.asarray(t.distances, dtype=float)
+            obs["d2"] = [sq_units(d[k + 1] - d[k], gm.u) for k in range(len(d) - 1)]
+            pl = float(t.path_length)
+            obs["plen"] = bool(abs(pl - (d[-1] if len(d) else 0.0)) <= 1e-9 * max(1.0, abs(pl)) and len(d) == t.num_poses and d[0] == 0)
         elif name == "DeepCopy":
             t = copy.deepcopy(t)
         elif name == "TransformL":
